@@ -93,6 +93,50 @@ func guardOf(fset *token.FileSet, files []*ast.File, fn string) ([]string, error
 	return nil, fmt.Errorf("function %s not found", fn)
 }
 
+// funcFacts: every if-condition, short variable declaration, return statement and call on `errorHandler` of a function (closures included), in
+// source order, as printed source text. Any edit of the function's decision logic changes the list.
+func funcFacts(fset *token.FileSet, files []*ast.File, fn string) ([]string, error) {
+	for _, f := range files {
+		for _, d := range f.Decls {
+			fd, ok := d.(*ast.FuncDecl)
+			if !ok || fd.Name.Name != fn || fd.Body == nil {
+				continue
+			}
+			var facts []string
+			ast.Inspect(fd.Body, func(n ast.Node) bool {
+				switch t := n.(type) {
+				case *ast.IfStmt:
+					facts = append(facts, "if "+c02ExprText(fset, t.Cond))
+				case *ast.AssignStmt:
+					if t.Tok == token.DEFINE && len(t.Lhs) == 1 && len(t.Rhs) == 1 {
+						if _, isFunc := t.Rhs[0].(*ast.FuncLit); !isFunc {
+							facts = append(facts, c02ExprText(fset, t.Lhs[0])+" := "+c02ExprText(fset, t.Rhs[0]))
+						}
+					}
+				case *ast.ReturnStmt:
+					var rs []string
+					for _, r := range t.Results {
+						rs = append(rs, c02ExprText(fset, r))
+					}
+					facts = append(facts, "return "+strings.Join(rs, ", "))
+				case *ast.CallExpr:
+					if sel, ok := t.Fun.(*ast.SelectorExpr); ok {
+						if id, ok := sel.X.(*ast.Ident); ok && id.Name == "errorHandler" {
+							facts = append(facts, "call errorHandler."+sel.Sel.Name)
+						}
+					}
+				}
+				return true
+			})
+			if len(facts) == 0 {
+				return nil, fmt.Errorf("no facts found in %s", fn)
+			}
+			return facts, nil
+		}
+	}
+	return nil, fmt.Errorf("function %s not found", fn)
+}
+
 func c02GuardFacts(repo string, w *strings.Builder) error {
 	ofset, ofiles, err := parseDir(filepath.Join(repo, "cypher", "models", "pgsql", "optimize"))
 	if err != nil {
@@ -118,12 +162,27 @@ func c02GuardFacts(repo string, w *strings.Builder) error {
 	if err != nil {
 		return err
 	}
+	aggHelper, err := funcFacts(tfset, tfiles, "selectContainsAggregate")
+	if err != nil {
+		return err
+	}
+	depth, err := funcFacts(ofset, ofiles, "aggregateTraversalDepthBounds")
+	if err != nil {
+		return err
+	}
+	aliasDecl, err := funcFacts(tfset, tfiles, "isProjectionAliasDeclaration")
+	if err != nil {
+		return err
+	}
 	w.WriteString("/- GENERATED by tools/extract/goext (mode c02guard) from cypher/models/pgsql/{optimize/lowering_plan.go,translate/projection.go}. Do not edit. -/\n")
 	w.WriteString("namespace Dawgs.Generated.C02Guard\n\n")
 	fmt.Fprintf(w, "def planGuard : List String := %s\n\n", leanStrList(plan))
 	fmt.Fprintf(w, "def tailGuard : List String := %s\n\n", leanStrList(tail))
 	fmt.Fprintf(w, "def countFastGuard : List String := %s\n\n", leanStrList(count))
 	fmt.Fprintf(w, "def countArgGuard : List String := %s\n\n", leanStrList(countArg))
+	fmt.Fprintf(w, "def aggregateHelper : List String := %s\n\n", leanStrList(aggHelper))
+	fmt.Fprintf(w, "def depthBounds : List String := %s\n\n", leanStrList(depth))
+	fmt.Fprintf(w, "def aliasDeclaration : List String := %s\n\n", leanStrList(aliasDecl))
 	w.WriteString("end Dawgs.Generated.C02Guard\n")
 	return nil
 }
